@@ -1,0 +1,22 @@
+//go:build verif
+
+package parser
+
+// Contracts for the hvc verifier (/verif). Comment-only: this file adds no code
+// with or without the build tag.
+
+//@ func NewParser(buffer []byte) (r *Parser)
+//@   ensures new: r != nil && fresh(r) && sameslice(r.buffer, buffer) && r.bigEndian == true
+
+//@ func (p *Parser) Length() (n int)
+//@   requires nonnil: p != nil
+//@   pure
+//@   ensures len: n == len(p.buffer)
+
+//@ func (p *Parser) ParseInt32() (r int)
+//@   requires nonnil: p != nil
+//@   modifies p.buffer
+//@   ensures value: old(len(p.buffer)) >= 4 ==> r == ite(p.bigEndian, be32(old(p.buffer)), le32r(old(p.buffer)))
+//@   ensures rest:  old(len(p.buffer)) >= 4 ==> sameslice(p.buffer, old(p.buffer)[4:])
+//@   ensures short: old(len(p.buffer)) <  4 ==> r == 0 && sameslice(p.buffer, old(p.buffer))
+//@   ensures range: 0 <= r && r < 4294967296
